@@ -367,8 +367,8 @@ Fixpoint wfb (e : OpExpr) : bool :=
       shape_eqb (bsh (denote l)) (bsh (denote r)) &&
       Nat.eqb (nr (denote l)) (nr (denote r)) && Nat.eqb (nc (denote l)) (nc (denote r))
   | ConstantMul b c => wfb b && Nat.eqb (nr c) 1 && Nat.eqb (nc c) 1 && bsub (bsh c) (bsh (denote b))
-  | BlockDiag b =>
-      wfb b && negb (is_diag_cls b) && Nat.eqb (nr (denote b)) (nc (denote b)) && pos (nr (denote b)) &&
+  | BlockDiag b =>      (* a DiagLinearOperator base is accepted: the metaclass then returns a DiagLinearOperator *)
+      wfb b && Nat.eqb (nr (denote b)) (nc (denote b)) && pos (nr (denote b)) &&
       match bsh (denote b) with k :: _ => pos k | [] => false end
   | BlockInterleaved b | SumBatch b =>
       wfb b && match bsh (denote b) with k :: _ => pos k | [] => false end
